@@ -528,6 +528,7 @@ void region_freed( const void* p, size_t n, const char* what ) noexcept
     ++g_nfreed;
 }
 
+void regions_reset() noexcept { g_nfreed = 0; }
 void set_context( const char* what ) noexcept { snprintf( g_context, sizeof g_context, "%s", what ? what : "" ); }
 void set_step_budget( uint64_t n ) noexcept { g_step_budget = n; }
 
